@@ -142,7 +142,7 @@ def _build(d, depth):
 def strategy(tier):
     depth = 3 if tier == 'quick' else 5
     return decoded(lambda d: _build(d, depth), min_size=24,
-                   max_size=120 if tier == 'quick' else 400)
+                   max_size=240 if tier == 'quick' else 400)
 
 
 def budget(tier):
